@@ -1,7 +1,7 @@
 """C02 - edge errors and chi^2 implement the documented measurement model."""
 import numpy as np
 
-from .. import edgecases as E, gs, refmodel as R, strategies as S
+from .. import edgecases as E, gs, hugegraph as HG, refmodel as R, strategies as S
 
 ID = "C02"
 RULE = (
@@ -24,6 +24,8 @@ INFO_KINDS = ["spd", "spd", "spd", "psd", "zero-rowcol", "indef", "diag", "ident
 
 @S.composite
 def strategy_(g):
+    if g.rnd.random() < 0.003:
+        return HG.gen(g)
     shape = g.choice(["edge", "edge", "edge", "graph"])
     if shape == "edge":
         ik = g.choice(INFO_KINDS)
@@ -31,6 +33,9 @@ def strategy_(g):
         k0, k1, kz, ko = E.kinds_of(case["ek"])
         n = R.CDIM[kz]
         case["shape"] = "edge"
+        if g.choice([False] * 5 + [True]):
+            case["info"], case["info_dtype"] = E.narrow_info(g, n)
+            ik = "spd"
         case["ik"] = ik
         case["info2"] = g.sym_matrix(n, kind=g.choice(["spd", "indef", "diag"]))
         case["ab"] = [g.rnd.uniform(-3, 3), g.rnd.uniform(-3, 3)]
@@ -145,6 +150,8 @@ def _check_edge_model(ctx, ek, edge, S_, label="", operands=None):
 
 
 def check(case, ctx):
+    if case["shape"] == "huge":
+        return HG.check_chi2(case, ctx)
     if case["shape"] == "graph":
         return _check_graph(case, ctx)
     ek = case["ek"]
@@ -160,6 +167,8 @@ def check(case, ctx):
     ctx.nontrivial(nontriv or offdiag or illcond)
 
     edge, v1, v2 = E.build_edge(case)
+    if case.get("info_dtype"):
+        ctx.event("information-dtype:" + case["info_dtype"])
     if "fixed" in case:
         v1.fixed, v2.fixed = bool(case["fixed"][0]), bool(case["fixed"][1])
     k0, k1, kz, ko = E.kinds_of(ek)
